@@ -254,3 +254,124 @@ def update_masks(h):
                 ok.append(new is old)
     same_shape(r, cond, tree)
     h.check('exactly-the-members-of-the-reported-kind-are-extended-structure-kept', 'ok', ok=all(ok) and len(ok) > 0)
+
+
+@contract('C11/mask.update_mask', ['C11'], MK + '::update_mask', native=False)
+def update_mask(h):
+    """the termination rebuilt for a collapse report {condition description: what collapsed}: _update_masks is applied once
+    per reported entry, each time to the result of the previous one, with that entry's description as the kind to look
+    for and its collapse as the mask; no report (None) leaves the condition as it is"""
+    if not h.is_sym():
+        h.unsupported('symbolic only')
+    n = h.choice('entries', ['None', 0, 1, 2])
+    new = h.choice('new', ['omitted', True])
+    cond = h.fn('CONDITION', ret='bool')
+    calls, results = [], []
+
+    def upd(I, c, a, k):
+        calls.append((list(a), dict(k)))
+        results.append(h.fn('UPDATED_%d' % len(calls), ret='bool'))
+        return results[-1]
+    h.set_summaries({('mystic/mask.py', '_update_masks'): upd})
+    masks = [h.st.alloc('set', [i]) for i in range(2)]
+    keys = ['CollapseAt with {...}', 'CollapseAs with {...}']
+    rep = None if n == 'None' else h.st.alloc('dict', {keys[i]: masks[i] for i in range(n)})
+    args = [cond, rep] + ([True] if new is True else [])
+    r = h.call(h.get(MK + '::update_mask'), *args)
+    m = 0 if n == 'None' else n
+    ok = len(calls) == m and (r is (results[-1] if m else cond))
+    for i in range(min(m, len(calls))):
+        a, k = calls[i]
+        flag = (a[3] if len(a) > 3 else k.get('new', False))
+        ok = ok and a[0] is (cond if i == 0 else results[i - 1]) and a[1] is masks[i] and a[2] == keys[i] and bool(flag) == (new is True)
+    h.check('one-mask-update-per-reported-entry-chained-in-order', 'ok', ok=ok)
+
+
+@contract('C11/__collapse_termination', ['C11'], A + '._AbstractSolver__collapse_termination', native=False)
+def collapse_termination(h):
+    """what Collapse() installs: the state (settings per condition) is read from the termination BEFORE the masks are
+    extended -- the constraints are built from the targets / offsets in force when the collapse was detected -- and the new
+    termination is update_mask(current termination, the report)"""
+    if not h.is_sym():
+        h.unsupported('symbolic only')
+    term = h.fn('CURRENT_TERMINATION', ret='bool')
+    newterm = h.fn('MASKED_TERMINATION', ret='bool')
+    state = h.dict()
+    rep = h.dict(**{'CollapseAt with {}': h.clist([1])})
+    log = []
+    h.set_summaries({('mystic/termination.py', 'state'): lambda I, c, a, k: (log.append(('state', list(a))), state)[1],
+                     ('mystic/mask.py', 'update_mask'): lambda I, c, a, k: (log.append(('update', list(a), dict(k))), newterm)[1]})
+    s = h.obj(A, _termination=term)
+    r = h.call(h.getattr(s, '_AbstractSolver__collapse_termination'), rep)
+    ok = (isinstance(r, tuple) and len(r) == 2 and r[0] is state and r[1] is newterm and [e[0] for e in log] == ['state', 'update']
+          and log[0][1][0] is term and log[1][1][0] is term and log[1][1][1] is rep and not log[1][2].get('new') and len(log[1][1]) == 2)
+    h.check('state-of-the-current-termination-and-the-termination-with-extended-masks', 'ok', ok=ok)
+    h.check('solver-not-modified', 'same(s._termination, term)', s=s, term=term)
+
+
+@contract('C11/collapse-constraints/routing', ['C11'], A + '._AbstractSolver__collapse_constraints', native=False)
+def collapse_constraints_routing(h):
+    """every entry of the report is turned into its constraint -- CollapseAt: impose_at(indices, target) (target None: the
+    current best values via select_params), CollapseAs: impose_as(pairs, offset), CollapseCost: impose_bounds(bounds,
+    clip=the condition's clip), CollapsePosition / CollapseWeight: ONE impose_measure(npts, [position collapses], [weight
+    collapses]) when the monitor watches a product measure -- and all of them are chained around the solver's current
+    constraints: none is dropped, none is applied twice"""
+    if not h.is_sym():
+        h.unsupported('symbolic only')
+    which = h.choice('report', [('CollapseAt',), ('CollapseAs', 'CollapseAt'), ('CollapseCost', 'CollapseAs'),
+                                ('CollapsePosition', 'CollapseWeight'), ('CollapseWeight',), ('CollapseAt', 'CollapsePosition', 'CollapseCost')])
+    npts = (2, 2) if any(w in ('CollapsePosition', 'CollapseWeight') for w in which) else None
+    tgt, off, clip = h.real('target'), h.real('offset'), h.choice('cost_clip', [True, False])
+    settings = {'CollapseAt': {'target': tgt, 'tolerance': 0.1, 'generations': 5, 'mask': None},
+                'CollapseAs': {'offset': off, 'tolerance': 0.1, 'generations': 5, 'mask': None},
+                'CollapseCost': {'clip': clip, 'limit': 1.0, 'samples': 5, 'mask': None},
+                'CollapsePosition': {'tolerance': 0.1, 'generations': 5, 'mask': None},
+                'CollapseWeight': {'tolerance': 0.1, 'generations': 5, 'mask': None}}
+    keys = {w: w + ' with {...}' for w in which}
+    reports = {w: h.st.alloc('set', [i]) if w != 'CollapseCost' else h.st.alloc('dict', {0: h.clist([h.tup(0.0, 1.0)])}) for i, w in enumerate(which)}
+    state = h.st.alloc('dict', {keys[w]: h.st.alloc('dict', settings[w]) for w in which})
+    collapses = h.st.alloc('dict', {keys[w]: reports[w] for w in which})
+    made, chained = [], []
+
+    def maker(kind):
+        def f(I, c, a, k):
+            fn = h.fn('%s_%d' % (kind, len(made) + 1), ret='same')
+            made.append((kind, list(a), dict(k), fn))
+            return fn
+        return f
+
+    def chain(I, c, a, k):
+        chained.append(list(a))
+        from pyvc.values import Builtin
+        return Builtin('chained', lambda I_, aa, kk: (chained.append(('around', aa[0])), 'CHAINED-CONSTRAINTS')[1])
+    user = h.fn('USER_CONSTRAINTS', ret='same')
+    h.set_summaries({('mystic/constraints.py', 'impose_at'): maker('impose_at'), ('mystic/constraints.py', 'impose_as'): maker('impose_as'),
+                     ('mystic/constraints.py', 'impose_bounds'): maker('impose_bounds'), ('mystic/constraints.py', 'impose_measure'): maker('impose_measure'),
+                     ('mystic/tools.py', 'chain'): chain})
+    s = h.obj(A, _stepmon=h.obj(None, _npts=npts), _constraints=user)
+    r = h.call(h.getattr(s, '_AbstractSolver__collapse_constraints'), state, collapses)
+    tests = {'impose_at': lambda a, k, w: a[0] is reports[w] and a[1] is tgt,
+             'impose_as': lambda a, k, w: a[0] is reports[w] and a[1] is off,
+             'impose_bounds': lambda a, k, w: a[0] is reports[w] and k.get('clip') is clip}
+    kind_of = {'CollapseAt': 'impose_at', 'CollapseAs': 'impose_as', 'CollapseCost': 'impose_bounds'}
+    plain = [w for w in which if w in kind_of]                     # built in the order of the report ...
+    ok = [m[0] for m in made[:len(plain)]] == [kind_of[w] for w in plain] and all(tests[m[0]](m[1], m[2], w) for m, w in zip(made, plain))
+    if npts:
+        ok = ok and len(made) == len(plain) + 1 and made[-1][0] == 'impose_measure'
+        if ok:
+            a = made[-1][1]
+            pos = list(h.st.heap[a[1]]) if hasattr(a[1], 'kind') else list(a[1])
+            wts = list(h.st.heap[a[2]]) if hasattr(a[2], 'kind') else list(a[2])
+            ok = (a[0] == npts and len(pos) == ('CollapsePosition' in which) and len(wts) == ('CollapseWeight' in which)
+                  and all(p is reports['CollapsePosition'] for p in pos) and all(q is reports['CollapseWeight'] for q in wts))
+    else:
+        ok = ok and len(made) == len(plain)
+    h.check('one-constraint-per-reported-collapse-built-from-its-report-and-the-conditions-settings', 'ok', ok=ok)
+    if not ok:
+        return
+    # ... and every one of them (each once, in whatever order) is chained around the current constraints
+    order = [m[3] for kind in ('impose_at', 'impose_as', 'impose_bounds', 'impose_measure') for m in made if m[0] == kind]
+    h.check('all-of-them-chained-around-the-current-constraints', 'ok',
+            ok=(r == 'CHAINED-CONSTRAINTS' and len(chained) == 2 and len(chained[0]) == len(order)
+                and all(any(x is y for y in order) for x in chained[0]) and all(any(x is y for x in chained[0]) for y in order)
+                and chained[1] == ('around', user)))
